@@ -340,7 +340,6 @@ func PathClass(diff string) string {
 	return out
 }
 
-
 // ByteRanges returns the address ranges [lo, hi) of the backing arrays (whole
 // capacity) of every byte slice reachable from the roots. Addresses are only
 // compared inside the process, never logged.
